@@ -57,6 +57,17 @@ Definition to_out (q : @npreq Q) (s : list nat) (d : list Q) : res (list nat * l
       end
   end.
 
+(* comparison ufuncs have no (float, float) -> float loop: reduce, accumulate and
+   reduceat raise TypeError on numeric arrays *)
+Definition bop_is_cmp (o : bop) : bool :=
+  match o with BLess | BLessEq | BGreater | BGreaterEq | BEq | BNe => true | _ => false end.
+Definition meth_reduces (m : meth) : bool :=
+  match m with MReduce | MAccumulate | MReduceat => true | _ => false end.
+
+(* a computed result stored with NumPy's result dtype (bool results: nonzero -> 1) *)
+Definition mkRes (d : dt) (shape : list nat) (data : list Q) : narrQ :=
+  mkArr d shape (map (castQ DF64 d) data).
+
 Definition np_conc (uf : ufid) (rdt : list dt) (oracle : res (list narrQ)) (q : @npreq Q)
   : res (list narrQ) :=
   let d0 := hd_dt rdt in
@@ -66,7 +77,7 @@ Definition np_conc (uf : ufid) (rdt : list dt) (oracle : res (list narrQ)) (q : 
       match q_meth q, q_ins q with
       | MCall, [x] =>
           match to_out q (in_shape x) (call1 u (in_data x)) with
-          | Ok (s, d) => Ok [mkArr d0 s d]
+          | Ok (s, d) => Ok [mkRes d0 s d]
           | Err e => Err e
           end
       | MAt, [RIArr a] =>
@@ -77,7 +88,7 @@ Definition np_conc (uf : ufid) (rdt : list dt) (oracle : res (list narrQ)) (q : 
               | None => Err EIndex
               | Some idx =>
                   let inner := prodn rest in
-                  Ok [mkArr (a_dt a) (a_shape a) (concat (at1_rows u (chunks inner n (a_data a)) idx))]
+                  Ok [mkRes (a_dt a) (a_shape a) (concat (at1_rows u (chunks inner n (a_data a)) idx))]
               end
           end
       | _, _ => Err EUnmodelled
@@ -89,7 +100,7 @@ Definition np_conc (uf : ufid) (rdt : list dt) (oracle : res (list narrQ)) (q : 
           | None => Err EValue
           | Some (s, d) =>
               match to_out q s d with
-              | Ok (s', d') => Ok [mkArr d0 s' d']
+              | Ok (s', d') => Ok [mkRes d0 s' d']
               | Err e => Err e
               end
           end
@@ -107,10 +118,11 @@ Definition np_conc (uf : ufid) (rdt : list dt) (oracle : res (list narrQ)) (q : 
           | Some ax =>
               if has_dup ax then Err EValue
               else if (1 <? length ax)%nat && negb (bop_reorderable o) then Err EValue
+              else if bop_is_cmp o then Err EType
               else match reduce_axes o shape (sort_desc ax) (a_data a) with
                    | None => Err EValue
                    | Some (s, d) =>
-                       Ok [mkArr d0 (if kw_keepdims (q_kw q) then keep_shape shape ax else s) d]
+                       Ok [mkRes d0 (if kw_keepdims (q_kw q) then keep_shape shape ax else s) d]
                    end
           end
       | MAccumulate, [RIArr a] =>
@@ -125,10 +137,11 @@ Definition np_conc (uf : ufid) (rdt : list dt) (oracle : res (list narrQ)) (q : 
                       end in
           match axis with
           | Err e => Err e
-          | Ok ax => Ok [mkArr d0 shape (accumulate_axis o shape ax (a_data a))]
+          | Ok ax => if bop_is_cmp o then Err EType
+                     else Ok [mkRes d0 shape (accumulate_axis o shape ax (a_data a))]
           end
       | MOuter, [x; y] =>
-          Ok [mkArr d0 (in_shape x ++ in_shape y) (outer o (in_data x) (in_data y))]
+          Ok [mkRes d0 (in_shape x ++ in_shape y) (outer o (in_data x) (in_data y))]
       | MReduceat, [RIArr a] =>
           let shape := a_shape a in
           let nd := length shape in
@@ -143,8 +156,9 @@ Definition np_conc (uf : ufid) (rdt : list dt) (oracle : res (list narrQ)) (q : 
               let n := nth ax shape 0%nat in
               let zs := kw_idx (q_kw q) in
               if forallb (fun z => (0 <=? z)%Z && (z <? Z.of_nat n)%Z) zs
-              then let idx := map Z.to_nat zs in
-                   Ok [mkArr d0 (set_ax shape ax (length idx)) (reduceat_axis o shape ax idx (a_data a))]
+              then if bop_is_cmp o then Err EType else
+                   let idx := map Z.to_nat zs in
+                   Ok [mkRes d0 (set_ax shape ax (length idx)) (reduceat_axis o shape ax idx (a_data a))]
               else Err EIndex
           end
       | MAt, [RIArr a; v] =>
@@ -161,7 +175,7 @@ Definition np_conc (uf : ufid) (rdt : list dt) (oracle : res (list narrQ)) (q : 
                   | Some bs =>
                       if negb (shape_eqb bs (k :: rest)) then Err EValue else
                       let vrows := chunks inner k (bcast_to (in_shape v) (k :: rest) (in_data v)) in
-                      Ok [mkArr (a_dt a) (a_shape a)
+                      Ok [mkRes (a_dt a) (a_shape a)
                                 (concat (at2_rows o (chunks inner n (a_data a)) (combine idx vrows)))]
                   end
               end
@@ -329,3 +343,34 @@ Definition check_legacy (k : lcase) : bool :=
   ptree_close (legacy1 castQ F f (l_tree k)) (l_legacy k)
   && ptree_close (if is_node (l_tree k) then legacy1_spec castQ F f (l_tree k)
                   else legacy1 castQ F f (l_tree k)) (l_npcall k).
+
+(* ---------------- power-space elements through the NumPy API ---------------- *)
+(* kind: 0 ndarray, 1 power-space element, 3 scalar *)
+Record pw := mkPW { pw_kind : nat; pw_dt : dt; pw_shape : list nat; pw_data : list Q }.
+Inductive pobs := PErr (e : errk) | POk (l : list pw).
+Record pcase := mkPCase {
+  p_uf : ufid; p_rdt : list dt; p_oracle : res (list narrQ);
+  p_n : nat; p_s : list nat; p_d : dt; p_x : list Q;      (* the element: n parts of shape s *)
+  p_meth : meth; p_kw : kwargs;
+  p_other : list (@rawin Q);                               (* further operands (arrays / scalars) *)
+  p_self_second : bool;                                    (* the element is the SECOND operand *)
+  p_out_elem : bool;                                       (* out= is a power-space element *)
+  p_out_arr : bool;                                        (* out= is an ndarray of the result dtype *)
+  p_obs : pobs }.
+Definition wrapped_ok (w : @wrapped Q) (o : pw) : bool :=
+  match w with
+  | WScal v => (pw_kind o =? 3)%nat && Qsclose tol tol (pw_data o) [v]
+  | WArrRes r => (pw_kind o =? 0)%nat && dt_eqb (a_dt r) (pw_dt o) && shape_eqb (a_shape r) (pw_shape o)
+                 && Qsclose tol tol (pw_data o) (a_data r)
+  | WElem d sh x => (pw_kind o =? 1)%nat && dt_eqb d (pw_dt o) && shape_eqb sh (pw_shape o)
+                    && Qsclose tol tol (pw_data o) x
+  end.
+Definition check_pspace (k : pcase) : bool :=
+  let xarr := RIArr (mkArr (p_d k) (p_n k :: p_s k) (p_x k)) in
+  let ins := if p_self_second k then p_other k ++ [xarr] else xarr :: p_other k in
+  let r := np_conc (p_uf k) (p_rdt k) (p_oracle k) (mkReq (p_meth k) (p_kw k) ins []) in
+  match pspace_np castQ (p_meth k) (p_out_elem k) (p_out_arr k) (p_n k) (p_s k) (p_d k) r, p_obs k with
+  | Err e, PErr e' => errk_eqb e e'
+  | Ok ws, POk os => all2 wrapped_ok ws os
+  | _, _ => false
+  end.
